@@ -212,6 +212,8 @@ def blame_histories(pool, ids, suspects):
         for vj in vjs:
             base_needed.add(vj)
             for a in alts:
+                if a["act"] == "Analyse":
+                    base_needed.add(a["b"])
                 hs = [[{"act": "Analyse", "b": vj}, a]]
                 if a["act"] in ("Analyse", "Decode"):
                     hs.append([a, {"act": "Analyse", "b": vj}])
@@ -240,16 +242,27 @@ def blame_key(isa, log, d, pool2, base_tree):
     loc = loc_name(d["before"]) if d["before"] not in ("?", "nobase") else loc_name(d["after"])
     witness = "/".join(blocks[d["b"]]["mnem"]) if d["b"] in blocks else "?"
     regs = []
+
+    def diff(ta, tb):
+        if not (isinstance(ta, dict) and isinstance(tb, dict)):
+            return []
+        if loc in ta and loc in tb:
+            return changed_regs(ta[loc], tb[loc])
+        out = set()
+        for k_ in ta:                       # the evaluation as a whole changed (raised): any location
+            if k_ in tb:
+                out.update(changed_regs(ta[k_], tb[k_]))
+        return sorted(out)
     if d["clause"] == "Stable" and s >= 2:
         ta = [o for o in log["steps"][s - 2]["obs"] if o["k"] == d["k"]]
         tb = [o for o in st["obs"] if o["k"] == d["k"]]
-        if ta and tb and isinstance(ta[0].get("tree"), dict) and isinstance(tb[0].get("tree"), dict):
-            regs = changed_regs(ta[0]["tree"].get(loc), tb[0]["tree"].get(loc))
+        if ta and tb:
+            regs = diff(ta[0].get("tree"), tb[0].get("tree"))
         actor = actor_name(log["steps"][s - 1], blocks)
     else:
         tb = [o for o in st["obs"] if o["k"] == d["k"]]
-        if tb and isinstance(tb[0].get("tree"), dict) and isinstance(base_tree, dict):
-            regs = changed_regs(base_tree.get(loc), tb[0]["tree"].get(loc))
+        if tb:
+            regs = diff(base_tree, tb[0].get("tree"))
         actor = actor_name(log["steps"][0], blocks) if s >= 2 else "?"
     rn = ",".join(regs) if regs else "none"
     key = "C10:%s:%s>%s:%s.sf" % (isa, actor, witness, rn)
